@@ -152,3 +152,64 @@ CHECKS = {
         floor=dict(quick=100, thorough=100),
     ),
 }
+
+
+def ebr_jobs(profile, prop, s_secs=(15, 240), p_secs=(6, 60), extra=None):
+    jobs = [
+        dict(name=f"{profile}-S", variant="debug", stage=0,
+             args=["ebr", "--profile", profile, "--mode", "S", "--prop", prop],
+             shards=dict(quick=16, thorough=16), secs=dict(quick=s_secs[0], thorough=s_secs[1])),
+        dict(name=f"{profile}-P-release", variant="release", stage=1, threads=3,
+             args=["ebr", "--profile", profile, "--mode", "P", "--prop", prop],
+             shards=dict(quick=5, thorough=5), secs=dict(quick=p_secs[0], thorough=p_secs[1])),
+        dict(name=f"{profile}-P-debug", variant="debug", stage=1, threads=3, tiers=["thorough"],
+             args=["ebr", "--profile", profile, "--mode", "P", "--prop", prop],
+             shards=dict(thorough=5), secs=dict(thorough=p_secs[1])),
+        dict(name=f"{profile}-P-asan", variant="asan", stage=2, threads=3, tiers=["thorough"],
+             args=["ebr", "--profile", profile, "--mode", "P", "--prop", prop],
+             shards=dict(thorough=5), secs=dict(thorough=p_secs[1])),
+    ]
+    return jobs + (extra or [])
+
+
+def ql_jobs(which, s_secs=(15, 240), p_secs=(6, 60)):
+    return [
+        dict(name=f"{which}-S", variant="debug", stage=0, args=["ql", "--which", which, "--mode", "S"],
+             shards=dict(quick=16, thorough=16), secs=dict(quick=s_secs[0], thorough=s_secs[1])),
+        dict(name=f"{which}-P-release", variant="release", stage=1, threads=3, args=["ql", "--which", which, "--mode", "P"],
+             shards=dict(quick=5, thorough=5), secs=dict(quick=p_secs[0], thorough=p_secs[1])),
+        dict(name=f"{which}-P-asan", variant="asan", stage=2, threads=3, tiers=["thorough"], args=["ql", "--which", which, "--mode", "P"],
+             shards=dict(thorough=5), secs=dict(thorough=p_secs[1])),
+    ]
+
+
+RULE_EBR = ("executions = random programs of 2-4 participants of a private collector (pin/unpin in any order, nested guards, reactivate, reactivate_after, "
+            "defer of closures of 9 shapes, flush, manual collect/try_advance, participants registering/leaving, handle dropped before its guards, early thread exit) "
+            "under a seeded serialized schedule with stall rules inside pin/try_advance/push_bag/collect/finalize/queue/list (mode S) or free-running with delays (mode P); "
+            "distinct = distinct schedule hash (S) / op-log hash (P); non-trivial = ")
+EBR_ASSUME = ["guards are registered with the monitor after pin() returned and deregistered before drop/reactivate, so a registered guard proves an active critical section",
+              "mode S explores SC interleavings at yield-point granularity",
+              "hooks (cargo feature circ_verif) do not change the behaviour of the library"]
+
+CHECKS.update({
+    "C13": dict(jobs=ebr_jobs("c13", "C13"), rule=RULE_EBR + "a closure was deferred while at least one foreign guard was registered",
+                accept=["C13"], assumptions=EBR_ASSUME, floor=dict(quick=50, thorough=500)),
+    "C14": dict(jobs=ebr_jobs("c14", "C14") + rc_jobs("c14", "C14", "cascade", s_secs=(8, 60), p_secs=(4, 30), asan=False)[:1],
+                rule=RULE_EBR + "the global epoch advanced while a foreign guard was registered (every yield point samples the global epoch and every registered guard's announced epoch)",
+                accept=["C14"], assumptions=EBR_ASSUME, floor=dict(quick=50, thorough=500)),
+    "C15": dict(jobs=ebr_jobs("c15", "C15"), rule=RULE_EBR + "at least one closure was deferred (each execution ends with survivor rounds or with dropping the collector and checks every closure's counter == 1)",
+                accept=["C15"], assumptions=EBR_ASSUME, floor=dict(quick=50, thorough=500)),
+    "C16": dict(jobs=ebr_jobs("c16", "C16", extra=[
+                    dict(name="c16-enum", variant="release", stage=0, args=["c16enum", "--len", "{len}"], shards=dict(quick=1, thorough=1)),
+                ]),
+                rule=RULE_EBR + "every execution (the pinned-state model is evaluated after every guard operation); plus the exhaustive enumeration of all single-thread guard programs up to length 6 (quick) / 8 (thorough)",
+                accept=["C16"], assumptions=EBR_ASSUME, floor=dict(quick=50, thorough=500)),
+    "C17": dict(jobs=ql_jobs("c17"),
+                rule="executions = 2-4 threads x 3-8 push/try_pop/try_pop_if ops with unique values on the collector's queue type (through the shim) under serialized schedules with stalls at the queue's atomics (S) / free-running (P); "
+                     "each history (plus the final drain) is checked for FIFO linearizability and conservation; distinct = schedule hash / history hash; non-trivial = operations of different threads overlap",
+                accept=["C17"], assumptions=EBR_ASSUME[1:], floor=dict(quick=50, thorough=500)),
+    "C18": dict(jobs=ql_jobs("c18"),
+                rule="executions = 2-4 threads x 3-9 insert/delete/traverse ops on the participant list type (through the shim); every non-stalled traversal must contain every element inserted before it began and not deleted before it ended, "
+                     "must not contain never-inserted or already-deleted elements, and every element is finalized and freed exactly once; distinct = schedule hash / history hash; non-trivial = a traversal overlaps an insert or delete",
+                accept=["C18"], assumptions=EBR_ASSUME[1:], floor=dict(quick=50, thorough=500)),
+})
